@@ -1240,6 +1240,15 @@ class Symex:
                 r = self.attr_hook(self, obj, attr, node)
                 if r is not NotImplemented:
                     return r
+            ca = self.find_class_attr(obj.cls, attr) if obj.cls else None
+            if ca is not None:
+                # a constant defined in the class body (or a base class) read through the instance
+                saved = (self.frames, self.module)
+                self.frames, self.module = [{}], ca[1]
+                try:
+                    return self.ev(ca[0])
+                finally:
+                    self.frames, self.module = saved
             return T("attr", obj.term, attr)
         if isinstance(obj, T):
             if self.attr_hook is not None:
@@ -1287,6 +1296,32 @@ class Symex:
             if r is not NotImplemented:
                 return r
         self.unsupported(node, f"attribute {attr} of {type(obj).__name__}")
+
+    def find_class_attr(self, clsref, name, _depth=0):
+        """(value node, module) of ``name = <value>`` in the body of the class or of a base class of the library."""
+        mod, _, q = clsref.partition(":")
+        if _depth > 8 or mod not in self.model.modules or q not in self.model.modules[mod].classes:
+            return None
+        m = self.model.modules[mod]
+        c = m.classes[q]
+        for st in c.body:
+            if isinstance(st, ast.Assign) and any(isinstance(t, ast.Name) and t.id == name for t in st.targets):
+                return st.value, m
+            if isinstance(st, ast.AnnAssign) and isinstance(st.target, ast.Name) and st.target.id == name \
+                    and st.value is not None:
+                return st.value, m
+        for b in c.bases:
+            bname = U(b).split(".")[-1]
+            if bname in m.classes:
+                r = self.find_class_attr(f"{mod}:{bname}", name, _depth + 1)
+            elif bname in m.imports:
+                v = self.resolve_import(m, m.imports[bname], bname)
+                r = self.find_class_attr(f"{v.module.name}:{v.qual}", name, _depth + 1) if isinstance(v, ClassRef) else None
+            else:
+                r = None
+            if r is not None:
+                return r
+        return None
 
     def find_method(self, clsref, name, _seen=None):
         mod, _, q = clsref.partition(":")
@@ -1647,7 +1682,7 @@ class Symex:
             return self.binop(_OPERATOR[name](), args[0], args[1], node)
         if name in ("operator.neg", "neg") and len(args) == 1:
             return self.binop(ast.Mult(), -1, args[0], node)
-        if name in ("chain",) and all(not isinstance(a, T) for a in args):
+        if name in ("chain", "itertools.chain") and all(not isinstance(a, T) for a in args):
             out = []
             for x in args:
                 out.extend(self.iterate(x, node))
@@ -1699,7 +1734,8 @@ class Symex:
                 kw = dict(kw)
                 kw["key"] = lambda v, k=k: self.call_value(k, [v], {}, node)
             conv = [self.iterate(a, node) if isinstance(a, (T, Obj)) and name in
-                    ("list", "tuple", "enumerate", "zip", "set", "sorted", "reversed", "sum", "min", "max") else a for a in args]
+                    ("list", "tuple", "enumerate", "zip", "set", "sorted", "reversed", "sum", "min", "max")
+                    and not (name in ("min", "max") and len(args) > 1) else a for a in args]
             if name == "zip":
                 lens = [len(c) for c, a in zip(conv, args) if not isinstance(a, (T, Obj))]
                 if lens:
